@@ -134,6 +134,98 @@ func ruleGatesOf(withObserver bool) check.Rule {
 	}
 }
 
+// CORE-DELIVERS: the contract-enforcing types pass on what they accept.
+func ruleCoreDelivers() check.Rule {
+	return check.Rule{
+		Name: "CORE-DELIVERS",
+		Doc:  "subscriberImpl.NextWithContext/ErrorWithContext/CompleteWithContext each contain a call of the same notification on the destination field; observerImpl's three methods each call their try* helper and each try* helper calls the user callback field; subscriptionImpl.AddUnsubscribable registers the Unsubscribe of its argument with Add: a gate that lets nothing through satisfies every other rule of C01",
+		Run: func(c *check.Ctx) {
+			m := c.M
+			p := m.Obj.Ro
+			info := p.TypesInfo
+			has := func(fd *ast.FuncDecl, pred func(call *ast.CallExpr, sel *ast.SelectorExpr) bool) bool {
+				found := false
+				ast.Inspect(fd.Body, func(x ast.Node) bool {
+					if call, ok := x.(*ast.CallExpr); ok {
+						if sel, ok := ast.Unparen(call.Fun).(*ast.SelectorExpr); ok && pred(call, sel) {
+							found = true
+						}
+					}
+					return !found
+				})
+				return found
+			}
+			n := 0
+			for _, kind := range []string{"Next", "Error", "Complete"} {
+				mn := kind + "WithContext"
+				if fd := load.FuncDeclOf(p, "subscriberImpl."+mn); fd != nil && fd.Body != nil {
+					n++
+					rv := recvObj(info, fd)
+					key := "ro.subscriberImpl." + mn + "/delivers"
+					if has(fd, func(call *ast.CallExpr, sel *ast.SelectorExpr) bool {
+						inner, ok := ast.Unparen(sel.X).(*ast.SelectorExpr)
+						return ok && sel.Sel.Name == mn && fieldSelOf(info, inner, rv) != nil && inner.Sel.Name == "destination"
+					}) {
+						c.OK(key, fd.Pos(), "delivers %s to the destination", kind)
+					} else {
+						c.Violation(key, fd.Pos(), "subscriberImpl.%s never calls destination.%s: every %s notification of every pipeline is swallowed", mn, mn, kind)
+					}
+				} else {
+					c.Undecided("ro.subscriberImpl."+mn+"/delivers", p.Syntax[0].Pos(), "anchor not found")
+				}
+				if fd := load.FuncDeclOf(p, "observerImpl."+mn); fd != nil && fd.Body != nil {
+					n++
+					rv := recvObj(info, fd)
+					key := "ro.observerImpl." + mn + "/delivers"
+					if has(fd, func(call *ast.CallExpr, sel *ast.SelectorExpr) bool {
+						id, ok := ast.Unparen(sel.X).(*ast.Ident)
+						return ok && objOf(info, id) == types.Object(rv) && sel.Sel.Name == "try"+kind
+					}) {
+						c.OK(key, fd.Pos(), "hands the notification to try%s", kind)
+					} else {
+						c.Violation(key, fd.Pos(), "observerImpl.%s never calls try%s: the observer's %s callback is never invoked", mn, kind, kind)
+					}
+				}
+				if fd := load.FuncDeclOf(p, "observerImpl.try"+kind); fd != nil && fd.Body != nil {
+					n++
+					rv := recvObj(info, fd)
+					key := "ro.observerImpl.try" + kind + "/calls-callback"
+					if has(fd, func(call *ast.CallExpr, sel *ast.SelectorExpr) bool {
+						return fieldSelOf(info, call.Fun, rv) != nil && sel.Sel.Name == "on"+kind
+					}) {
+						c.OK(key, fd.Pos(), "calls the on%s callback", kind)
+					} else {
+						c.Violation(key, fd.Pos(), "try%s never calls the on%s callback", kind, kind)
+					}
+				}
+			}
+			if fd := load.FuncDeclOf(p, "subscriptionImpl.AddUnsubscribable"); fd != nil && fd.Body != nil {
+				n++
+				rv := recvObj(info, fd)
+				params := model.FlattenParams(info, fd.Type.Params)
+				key := "ro.subscriptionImpl.AddUnsubscribable/registers"
+				if len(params) == 1 && has(fd, func(call *ast.CallExpr, sel *ast.SelectorExpr) bool {
+					id, ok := ast.Unparen(sel.X).(*ast.Ident)
+					if !ok || objOf(info, id) != types.Object(rv) || sel.Sel.Name != "Add" || len(call.Args) != 1 {
+						return false
+					}
+					asel, ok := ast.Unparen(call.Args[0]).(*ast.SelectorExpr)
+					if !ok || asel.Sel.Name != "Unsubscribe" {
+						return false
+					}
+					aid, ok := ast.Unparen(asel.X).(*ast.Ident)
+					return ok && objOf(info, aid) == types.Object(params[0])
+				}) {
+					c.OK(key, fd.Pos(), "registers the argument's Unsubscribe as a finalizer")
+				} else {
+					c.Violation(key, fd.Pos(), "AddUnsubscribable does not register its argument's Unsubscribe with Add: composite subscriptions never release what was added to them")
+				}
+			}
+			c.Inc("core_delivery_points", n)
+		},
+	}
+}
+
 // coreStatusTypes: the types whose status word/field implements the grammar.
 func coreStatusTypes(m *model.Model) []string {
 	out := []string{"observerImpl", "subscriberImpl"}
@@ -539,7 +631,7 @@ func C01() *check.Property {
 		Title:    "Observable contract: values, then at most one terminal, then silence",
 		Patterns: CorePatterns,
 		Scope:    []string{ro},
-		Rules:    []check.Rule{ruleGates(), ruleStatusMonotone(), ruleWrap(), ruleSubjectGate(), ruleDropHook(), ruleLockRegion(), ruleSubjectBroadcastLocked()},
+		Rules:    []check.Rule{ruleGates(), ruleStatusMonotone(), ruleWrap(), ruleSubjectGate(), ruleDropHook(), ruleLockRegion(), ruleSubjectBroadcastLocked(), ruleCoreDelivers()},
 		Explanation: "Static check of the premises of the grammar argument. Every observer reaches a stream only through a subscriber created by the Subscribe it was passed to (WRAP, over every type that implements Observable); a subscriber delivers Next only " +
 			"after testing status == 0 under the producer lock and a terminal only after winning the compare-and-swap 0 -> k (GATE, CFG dominance; LOCK-REGION); the same one level down in observerImpl, whose callbacks are only invoked by the try* helpers, " +
 			"whose call sites are gated; the status word only ever moves away from open (STATUS-MONOTONE, all writes enumerated); subjects gate broadcasts, stores and registrations on status == KindNext under their mutex (SUBJECT-GATE); refusals go to the hook (DROP-HOOK). " +
